@@ -99,6 +99,85 @@ struct HintGrid : EngineBase {
     if (g_blk_live != 0) violation("C06", "alloc.outstanding_at_end", "blocks outstanding after the sets were destroyed");
     if (!g_cut) end_history_ok();
   }
+
+  // Large sets: code paths gated by the number of elements before the hint (thresholds in bytes / cache lines) are out of reach of the small
+  // enumeration above. A set of n keys 4, 8, 12, .. (distinct classes also for the coarse comparator, gaps included); around several anchors every hint within +-72 positions of the lower bound, for the value
+  // present at the anchor and for the absent value just below it, in the three call forms; judged against plain insertion (size, order, returned
+  // iterator) - the set is restored after every call.
+  void run_big(size_t n, long hidx) {
+    begin_history(0, hidx, 0xC12);
+    if (n + 2 > static_cast<size_t>(VF_HG_MAX_N)) { end_history_ok(); return; }
+    Set *s;
+    { MonScope mm; s = static_cast<Set *>(malloc(sizeof(Set))); }
+    window([&] { new (s) Set(cmp); });
+    bool asc;
+    { MonScope mm; asc = cmp(Val(4, 0), Val(8, 0)); }
+    for (size_t i = 0; i < n; ++i) {
+      int k = static_cast<int>(4 * (i + 1));
+      unsigned p = ++paycnt;
+      if (asc) window([&] { s->emplace_hint(s->end(), k, p); });
+      else window([&] { s->emplace_hint(s->begin(), k, p); });
+    }
+    if (static_cast<size_t>(s->size()) != n) harness_fail("hint grid: big set construction failed");
+    const size_t anchors[] = {n / 2, n - 1, n - 40, 100, 1200 < n ? 1200 : n / 3};
+    for (size_t ai = 0; ai < 5 && !g_cut; ++ai) {
+      const size_t rank = anchors[ai] < n ? anchors[ai] : n - 1;  // rank in ascending key order
+      for (int wantp = 0; wantp < 2 && !g_cut; ++wantp) {
+        const int key = static_cast<int>(4 * (rank + 1)) - (wantp ? 0 : 2);
+        Val x = EI<E>::norm(Val(key, 0));
+        for (long d = -72; d <= 72 && !g_cut; ++d) {
+          for (int form = 0; form < 3 && !g_cut; ++form) {
+            unsigned p = ++paycnt;
+            // what the set itself says about this very value (the comparator may look at more than the key)
+            size_t lb;
+            bool present;
+            { MonScope mm; E *t = new E(x.key, p); lb = static_cast<size_t>(s->lower_bound(*t) - s->begin()); present = s->contains(*t); delete t; }
+            long h = static_cast<long>(lb) + d;
+            if (h < 0 || h > static_cast<long>(n)) continue;
+            set_op(form == 0 ? "insert(hint,const&)" : form == 1 ? "insert(hint,&&)" : "emplace_hint", "big", std::string(present ? "present," : "absent,") + (d == 0 ? "hint=lb" : d < 0 ? "hint<lb" : "hint>lb"),
+                   fmt("n=%zu value=%d lower_bound=%zu hint=%ld", n, key, lb, h));
+            E *e;
+            { MonScope mm; e = new E(x.key, p); }
+            long got = -1;
+            if (form == 0) window([&] { auto it_ = s->insert(s->begin() + h, *e); got = it_ - s->begin(); });
+            else if (form == 1) window([&] { auto it_ = s->insert(s->begin() + h, std::move(*e)); got = it_ - s->begin(); });
+            else window([&] { auto it_ = s->emplace_hint(s->begin() + h, x.key, p); got = it_ - s->begin(); });
+            {
+              MonScope mm;
+              delete e;
+              const size_t want_size = n + (present ? 0 : 1);
+              if (threw) violation("C12", "hint.exception", "hinted insertion into a large set threw");
+              else if (static_cast<size_t>(s->size()) != want_size) violation("C12,C03", "hint.differs_from_plain_insert", fmt("large set: size is %zu after the hinted insertion, plain insertion gives %zu", static_cast<size_t>(s->size()), want_size));
+              else if (got != static_cast<long>(lb)) violation("C12,C03", "hint.returned_iterator_wrong_element", fmt("large set: returned position %ld, the element equivalent to the value is at %zu", got, lb));
+              else {
+                // local order around the insertion point (the rest of the set was not touched: checked by the final walk)
+                size_t lo = lb > 2 ? lb - 2 : 0, hi = std::min<size_t>(static_cast<size_t>(s->size()), lb + 3);
+                for (size_t i = lo + 1; i < hi; ++i)
+                  if (!cmp(EI<E>::val((*s)[static_cast<typename Set::size_type>(i - 1)]), EI<E>::val((*s)[static_cast<typename Set::size_type>(i)]))) { violation("C12", "hint.order_broken", "large set: not strictly increasing around the insertion point"); break; }
+              }
+            }
+            if (g_cut) break;
+            if (!present) { E *t; { MonScope mm; t = new E(x.key, p); } window([&] { s->erase(*t); }); MonScope mm; delete t; }
+            ++counters["big_set_triples"];
+          }
+        }
+      }
+    }
+    if (!g_cut) {
+      MonScope mm;
+      std::vector<Val> a = seq(*s);
+      if (a.size() != n) violation("C12", "hint.differs_from_plain_insert", "large set: size changed over the sweep");
+      for (size_t i = 1; i < a.size(); ++i)
+        if (!cmp(a[i - 1], a[i])) { violation("C12", "hint.order_broken", "large set: not strictly increasing after the sweep"); break; }
+    }
+    window([&] { s->~Set(); });
+    {
+      MonScope mm;
+      free(s);
+      if (!g_cut && EI<E>::kTracked && g_live_lib != 0) violation("C02", "ledger.alive_at_end", "elements alive after the set was destroyed");
+    }
+    if (!g_cut) end_history_ok();
+  }
 };
 
 }  // namespace vf
@@ -112,14 +191,16 @@ int main(int argc, char **argv) {
   g_selfswap_window = true;
   static HintGrid<Elem, Cmp, VecT> eng;
   eng.K = a.has("--k9") ? 9 : 6;
-  long total = 1L << eng.K;
+  const long masks = 1L << eng.K;
+  long total = masks + 2;  // + two large-set sweeps
   long to = a.to < total ? a.to : total;
   long h = a.from;
   for (; h < to; ++h) {
-    eng.run_mask(h);
+    if (h < masks) eng.run_mask(h);
+    else eng.run_big(h == masks ? 1500 : 5200, h);
     if (g_cut) break;
   }
-  eng.counters["masks_total"] = total;
+  eng.counters["masks_total"] = masks;
   eng.write_summary(VF_CFG_NAME, a.seed, a.from, g_cut ? h + 1 : h, a.to, hook);
   if (g_cut) _exit(3);
   return 0;
